@@ -227,7 +227,7 @@ theorem rd_item (F : FloatOps α) : (v : Value α) → Savable F v →
       obtain ⟨ys, hys, he⟩ := rd_vals F xs hs.cls_inv f 47 41 (d :: rest) more .nil .cls (by omega)
       refine ⟨.cls ys, ?_, by rw [erase]; exact Equiv.cls _ _ he⟩
       rw [save_cls_append]
-      have h := rdNested_cls F f _ _ _ _ _ _ hys
+      have h := rdNested_cls F f _ _ _ _ _ _ hs.cls_len hys
       simpa [tbl, Vals.app] using Item.nested (F := F) (fuel := f + 1) (d := d) _ _ _ rest more h
   | .map ps, hs => by
     intro fuel d rest more hd hf
@@ -360,8 +360,9 @@ theorem restoreSvalue_save (F : FloatOps α) (mb : MbLen) (v : Value α) (hs : S
     obtain ⟨ys, hys, he⟩ := rd_vals F xs hs.cls_inv ((saveElems F xs).length + 4) 47 41 [] [] .nil
       .cls (by omega)
     refine ⟨.cls ys, ?_, by rw [erase]; exact Equiv.cls _ _ he⟩
+    have hlen := hs.cls_len
     simp only [List.nil_append, Nat.zero_add, List.append_nil] at hp hys
-    simp [save, restoreSvalue, restoreContainer, hp, hys, Vals.app]
+    simp [save, restoreSvalue, restoreContainer, hp, hys, Nat.not_lt.2 hlen, Vals.app]
   | map ps =>
     have hp := pre_pairs F mb ps hs.map_inv.1 ((savePairs F ps).length + 4) 1 true [] 0 [] (by omega) (Or.inl rfl)
       (saveSize_map_some hz).2
